@@ -215,3 +215,336 @@ def json_set(obj, path, value, delete=False):
 
 STRUCT_VALUES = {"null": None, "empty_list": [], "empty_dict": {}, "string": "x", "real": 1.5, "true": True,
                  "nested": [[0]], "neg": -1, "big": 10 ** 12}
+
+
+# ------------------------------------------------------------------ further seed files
+def _tar(members, mode):
+    import tarfile
+    bio = io.BytesIO()
+    with tarfile.open(fileobj=bio, mode=mode) as t:
+        for n, b in members.items():
+            ti = tarfile.TarInfo(n)
+            ti.size = len(b)
+            t.addfile(ti, io.BytesIO(b))
+    return bio.getvalue()
+
+
+def gltf_embedded(files):
+    """model.gltf with every buffer / image uri replaced by a base64 data uri (one self-contained text file)"""
+    import base64
+    tree = json.loads(files["model.gltf"])
+    for sect in ("buffers", "images"):
+        for b in tree.get(sect, []):
+            if "uri" in b and b["uri"] in files:
+                b["uri"] = "data:application/octet-stream;base64," + base64.b64encode(files[b["uri"]]).decode()
+    return json.dumps(tree).encode()
+
+
+def extra_seeds(tm, sd):
+    """seed files of the registered loaders the exporters alone never reach: the other archive containers,
+    a self-contained text glTF, binary PLY flavours (big endian, wide list counts, doubles, quads)"""
+    import bz2
+    out = {}
+    obj = sd.get("obj")
+    stl = sd.get("stl")
+    if obj and stl:
+        out["tar.gz"] = _tar({"a.obj": obj, "b.stl": stl}, "w:gz")
+        out["tar.bz2"] = _tar({"a.obj": obj}, "w:bz2")
+        out["bz2"] = bz2.compress(stl)
+    if "dae" in sd:
+        bio = io.BytesIO()
+        with zipfile.ZipFile(bio, "w") as z:
+            z.writestr("model.dae", sd["dae"])
+        out["zae"] = bio.getvalue()
+    try:
+        box = tm.creation.box(extents=[1, 2, 3])
+        files = tm.Scene(box).export(file_type="gltf")
+        out["gltf@embedded"] = gltf_embedded(files)
+    except BaseException:
+        pass
+    out["ply@big_int"] = ply_variant("big", "int", "int")
+    out["ply@quads"] = ply_variant("little", "ushort", "uint", "double", quads=True, extra_list=True)
+    return out
+
+
+def bundles(tm):
+    """assets made of several files: name -> (file type, main file bytes, {sidecar name: bytes})"""
+    import numpy as np
+    out = {}
+    try:
+        from PIL import Image
+        img = Image.fromarray((np.arange(48).reshape(4, 4, 3) * 5).astype(np.uint8))
+        box = tm.creation.box(extents=[1, 2, 3])
+        uv = np.random.RandomState(0).rand(len(box.vertices), 2)
+        box.visual = tm.visual.TextureVisuals(uv=uv, image=img)
+        obj, tex = box.export(file_type="obj", include_texture=True, return_texture=True)
+        out["obj+mtl"] = ("obj", obj.encode() if isinstance(obj, str) else obj, dict(tex))
+    except BaseException:
+        pass
+    try:
+        box = tm.creation.box(extents=[1, 2, 3])
+        files = dict(tm.Scene(box).export(file_type="gltf"))
+        main = files.pop("model.gltf")
+        out["gltf+bin"] = ("gltf", main, files)
+    except BaseException:
+        pass
+    return out
+
+
+def bundle_mutations(ftype, main, aux, rs, n_cuts):
+    """(how, main', aux') : the references of the main file and the sidecars themselves are damaged"""
+    names = sorted(aux)
+    yield {"bundle": "valid"}, main, aux
+    for name in names:
+        b = aux[name]
+        yield {"sidecar": name, "op": "missing"}, main, {k: v for k, v in aux.items() if k != name}
+        yield {"sidecar": name, "op": "empty"}, main, dict(aux, **{name: b""})
+        step = max(1, len(b) // n_cuts)
+        for cut in range(1, len(b), step):
+            yield {"sidecar": name, "op": "truncate", "at": cut}, main, dict(aux, **{name: b[:cut]})
+        for _ in range(n_cuts):
+            pos = int(rs.randint(0, max(1, len(b))))
+            w = int(rs.randint(1, 5))
+            c = bytearray(b)
+            c[pos:pos + w] = bytes(rs.randint(0, 256, size=w).tolist())
+            yield {"sidecar": name, "op": "corrupt", "at": pos, "width": w}, main, dict(aux, **{name: bytes(c)})
+        # the reference in the main file
+        enc = name.encode()
+        if enc in main:
+            for new in (b"missing.bin", b"../" + enc, b"/" + enc, b"./" + enc, b"", enc + b"/", b"data:;base64,!!!!", enc * 40):
+                yield {"reference": name, "to": new.decode()[:40]}, main.replace(enc, new, 1), aux
+    step = max(1, len(main) // n_cuts)
+    for cut in range(0, len(main), step):
+        yield {"main": "truncate", "at": cut}, main[:cut], aux
+    for _ in range(2 * n_cuts):
+        pos = int(rs.randint(0, len(main)))
+        w = int(rs.randint(1, 5))
+        c = bytearray(main)
+        c[pos:pos + w] = bytes(rs.randint(0, 256, size=w).tolist())
+        yield {"main": "corrupt", "at": pos, "width": w}, bytes(c), aux
+
+
+# ------------------------------------------------------------------ families over the value classes of Loader.tla
+ESSENTIAL = [  # integer classes every chosen token gets in the quick tier (the others are sampled)
+    {"base": "zero", "delta": 0, "pow": 0, "mul": 1, "neg": False},
+    {"base": "zero", "delta": -1, "pow": 0, "mul": 1, "neg": False},
+    {"base": "n", "delta": 1, "pow": 0, "mul": 1, "neg": False},
+    {"base": "n", "delta": -1, "pow": 0, "mul": 1, "neg": False},
+    {"base": "zero", "delta": 0, "pow": 31, "mul": 1, "neg": False},
+    {"base": "n", "delta": 0, "pow": 32, "mul": 1, "neg": False},
+    {"base": "zero", "delta": 0, "pow": 63, "mul": 1, "neg": False},
+    {"base": "zero", "delta": 0, "pow": 100, "mul": 1, "neg": False},
+]
+
+
+def class_name(cls):
+    s = {"zero": "", "n": "n", "one": "1"}[cls["base"]]
+    if cls["delta"]:
+        s += "%+d" % cls["delta"]
+    if cls["pow"]:
+        s += "+2^%d" % cls["pow"]
+    if cls["mul"] != 1:
+        s = "%d*(%s)" % (cls["mul"], s)
+    return ("-(%s)" % s if cls["neg"] else s) or "0"
+
+
+def token_family(key, data, ints, reals, rs, quick):
+    """(how, bytes): numeric tokens of the payload replaced by value classes, container kept consistent"""
+    sp = split(key, data)
+    if sp is None:
+        return
+    payload, rewrap = sp
+    toks = numeric_tokens(payload)
+    if not toks:
+        return
+    if quick:
+        idx = list(range(min(12, len(toks))))
+        rest = list(range(len(idx), len(toks)))
+        idx += [rest[i] for i in rs.choice(len(rest), size=min(len(rest), 20), replace=False)] if rest else []
+        per_tok = len(ESSENTIAL) + 3
+    else:
+        # thorough: every class on every token for small files; for big ones the job volume is bounded
+        idx = list(range(len(toks)))
+        if len(idx) > 300:
+            idx = idx[:60] + [int(i) for i in rs.choice(np_range(60, len(toks)), size=240, replace=False)]
+        budget = max(600, 8_000_000 // max(1, len(data)))
+        per_tok = max(len(ESSENTIAL) + 3, min(len(ints), budget // len(idx)))
+    for ti in idx:
+        t = toks[ti]
+        if t[2] == "int":
+            try:
+                n = int(t[3])
+            except ValueError:
+                continue
+            if per_tok >= len(ints):
+                chosen = ints
+            else:
+                chosen = ESSENTIAL + [ints[i] for i in rs.choice(len(ints), size=per_tok - len(ESSENTIAL), replace=False)]
+            seen = set()
+            for cl in chosen:
+                v = int_value(cl, n)
+                if v in seen or v == n:
+                    continue
+                seen.add(v)
+                yield {"token": ti, "at": t[0], "was": t[3].decode()[:20], "class": class_name(cl)}, rewrap(replace(payload, t, str(v).encode()))
+        else:
+            chosen = [reals[i] for i in rs.choice(len(reals), size=3, replace=False)] if per_tok < len(ints) else reals
+            for nm in chosen:
+                yield {"token": ti, "at": t[0], "was": t[3].decode()[:20], "real_class": nm}, rewrap(replace(payload, t, real_value(nm)))
+
+
+def np_range(a, b):
+    import numpy as np
+    return np.arange(a, b)
+
+
+def field_family(data, fields, ints, rs, quick, bits=True):
+    """(how, bytes): a fixed-width binary field gets every single-bit flip and every value class modulo its width"""
+    for fld in fields:
+        n = get_field(data, fld)
+        width = 8 * fld[1]
+        seen = {n}
+        if bits:
+            for bit in range(width):
+                v = n ^ (1 << bit)
+                seen.add(v)
+                yield {"field_at": fld[0], "width": fld[1], "flip_bit": bit}, set_field(data, fld, v)
+        chosen = ints if not quick else ESSENTIAL + [ints[i] for i in rs.choice(len(ints), size=12, replace=False)]
+        for cl in chosen:
+            v = int_value(cl, n) % (1 << width)
+            if v in seen:
+                continue
+            seen.add(v)
+            yield {"field_at": fld[0], "width": fld[1], "class": class_name(cl)}, set_field(data, fld, v)
+
+
+def ply_variants(rs, quick):
+    """valid binary PLY files in the flavours the exporter never writes"""
+    allv = [(e, ct, it, kw) for e in ("little", "big") for ct in ("char", "uchar", "short", "ushort", "int", "uint")
+            for it in ("int", "uint", "ushort", "uchar", "short")
+            for kw in ({}, {"coord_type": "double"}, {"quads": True}, {"extra_list": True}, {"quads": True, "extra_list": True, "coord_type": "double"})]
+    if quick:
+        keep = [("little", "uchar", "int", {}), ("big", "int", "int", {}), ("big", "uint", "uint", {"extra_list": True}), ("little", "int", "int", {"quads": True})]
+        pick = rs.choice(len(allv), size=8, replace=False)
+        allv = keep + [allv[i] for i in pick]
+    for e, ct, it, kw in allv:
+        yield "ply@%s_%s_%s%s" % (e, ct, it, "".join("_" + k for k in sorted(kw))), ply_variant(e, ct, it, **kw)
+
+
+def json_family(key, data, structs, ints, rs, quick):
+    """(how, bytes): the JSON tree of a glTF is damaged structurally (node deleted / replaced by another kind of
+    value), accessors lose their bufferView while their count takes a value class, nodes form cycles"""
+    ft = key.split("@")[0]
+    if ft == "glb":
+        sp = glb_split(data)
+        if sp is None:
+            return
+        js, rewrap = sp
+    elif ft == "gltf":
+        js, rewrap = data, (lambda new: new)
+    else:
+        return
+    try:
+        tree = json.loads(js)
+    except ValueError:
+        return
+
+    def pack(t):
+        return rewrap(json.dumps(t).encode())
+    paths = [p for p, _ in json_paths(tree) if p]
+    if quick and len(paths) > 60:
+        paths = [paths[i] for i in rs.choice(len(paths), size=60, replace=False)]
+    for path in paths:
+        for nm in (structs if not quick else [structs[i] for i in rs.choice(len(structs), size=3, replace=False)]):
+            if nm == "delete":
+                yield {"json_path": "/".join(map(str, path)), "struct": nm}, pack(json_set(tree, path, None, delete=True))
+            else:
+                yield {"json_path": "/".join(map(str, path)), "struct": nm}, pack(json_set(tree, path, STRUCT_VALUES[nm]))
+    big = [c for c in ints if not c["neg"] and c["pow"] >= 20 and c["base"] == "zero" and c["delta"] == 0]
+    for ai, a in enumerate(tree.get("accessors", [])):
+        chosen = big if not quick else [big[i] for i in rs.choice(len(big), size=min(4, len(big)), replace=False)]
+        for cl in chosen:
+            t2 = json_set(tree, ("accessors", ai, "count"), int_value(cl, int(a.get("count", 0))))
+            t2["accessors"][ai].pop("bufferView", None)
+            yield {"accessor": ai, "without": "bufferView", "count": class_name(cl)}, pack(t2)
+    nodes = tree.get("nodes") or []
+    if nodes:
+        n = len(nodes)
+        for nm, ch0, chl in (("self", [0], None), ("ring", [n - 1], [0]), ("dense", list(range(n)) * 40, list(range(n)) * 40)):
+            t2 = json.loads(json.dumps(tree))
+            t2["nodes"][0]["children"] = ch0
+            if chl is not None:
+                t2["nodes"][-1]["children"] = chl
+            yield {"node_cycle": nm}, pack(t2)
+
+
+MODES = ["pathlib", "upper", "offset", "realfile", "twice",
+         "kw:process_false", "kw:force_mesh", "kw:force_scene", "kw:skip_materials", "kw:merge_primitives",
+         "kw:ignore_broken", "kw:maintain_order", "kw:split_object", "kw:merge_tex", "kw:prefer_color", "kw:fix_texture_false"]
+KWARGS = {"process_false": {"process": False}, "force_mesh": {"force": "mesh"}, "force_scene": {"force": "scene"},
+          "skip_materials": {"skip_materials": True}, "merge_primitives": {"merge_primitives": True},
+          "ignore_broken": {"ignore_broken": True}, "maintain_order": {"maintain_order": True},
+          "split_object": {"split_object": True, "group_material": False}, "merge_tex": {"merge_tex": True, "merge_norm": True},
+          "prefer_color": {"prefer_color": "face"}, "fix_texture_false": {"fix_texture": False}}
+
+
+# ------------------------------------------------------------------ other valid files than the one small box
+def geometry_variants(tm):
+    """(key, bytes, how): fresh exports of other geometry than the seed box / drawing: scaled by powers of two
+    (coordinates of 1e-6 .. 1e9 drawing units), far from the origin, larger, and degenerate (empty, one face,
+    zero-area faces, non-finite coordinates); every one is a valid file of its format"""
+    import numpy as np
+    from trimesh.path.entities import Arc, Line
+    mesh_formats = ("stl", "stl_ascii", "off", "obj", "glb", "3mf", "dae", "ply")
+    box = tm.creation.box(extents=[1, 2, 3])
+
+    def meshes():
+        for k in (-20, 10, 20, 30):
+            m = box.copy()
+            m.apply_scale(2.0 ** k)
+            yield {"mesh": "box", "scale": "2^%d" % k}, m
+        m = box.copy()
+        m.apply_translation([2.0 ** 24, -2.0 ** 24, 2.0 ** 20])
+        yield {"mesh": "box", "translated": "2^24"}, m
+        yield {"mesh": "icosphere", "faces": 320}, tm.creation.icosphere(subdivisions=2)
+        yield {"mesh": "one_face"}, tm.Trimesh(vertices=[[0, 0, 0], [1, 0, 0], [0, 1, 0]], faces=[[0, 1, 2]], process=False)
+        yield {"mesh": "zero_area_faces"}, tm.Trimesh(vertices=[[0, 0, 0], [1, 0, 0], [2, 0, 0], [0, 0, 0]], faces=[[0, 1, 2], [0, 0, 3], [1, 1, 1]], process=False)
+        yield {"mesh": "empty"}, tm.Trimesh()
+        m = box.copy()
+        m.vertices[0] = [np.nan, np.inf, -np.inf]
+        yield {"mesh": "non_finite_vertex"}, m
+
+    for how, m in meshes():
+        for ft in mesh_formats:
+            try:
+                data = m.export(file_type=ft) if ft != "ply" else m.export(file_type="ply", encoding="ascii" if how.get("scale") == "2^10" else "binary")
+            except BaseException:
+                continue
+            if isinstance(data, str):
+                data = data.encode("utf-8")
+            if isinstance(data, (bytes, bytearray)) and len(data) > 0:
+                yield ft, bytes(data), how
+
+    def paths():
+        for k in (-20, 0, 10, 20, 30, 40):
+            r = 2.0 ** k
+            yield {"path": "half_circle_and_chord", "radius": "2^%d" % k}, tm.path.Path2D(
+                entities=[Arc([0, 1, 2]), Line([2, 0])], vertices=np.array([[r, 0], [0, r], [-r, 0]], dtype=float), process=False)
+            yield {"path": "shallow_arc", "radius": "2^%d" % k}, tm.path.Path2D(
+                entities=[Arc([0, 1, 2])], vertices=np.array([[-1e-3 * r, r * (1 - 5e-7)], [0, r], [1e-3 * r, r * (1 - 5e-7)]], dtype=float), process=False)
+        n = 60
+        t = np.linspace(0, 2 * np.pi, n, endpoint=False)
+        yield {"path": "polygon", "segments": n}, tm.path.Path2D(entities=[Line(list(range(n)) + [0])], vertices=np.column_stack((np.cos(t), np.sin(t))) * 7, process=False)
+        yield {"path": "single_point_line"}, tm.path.Path2D(entities=[Line([0, 0])], vertices=np.array([[0.0, 0.0]]), process=False)
+        yield {"path": "collinear_arc"}, tm.path.Path2D(entities=[Arc([0, 1, 2])], vertices=np.array([[0.0, 0], [1, 0], [2, 0]]), process=False)
+
+    for how, p in paths():
+        for ft in ("dxf", "svg"):
+            try:
+                data = p.export(file_type=ft)
+            except BaseException:
+                continue
+            if isinstance(data, str):
+                data = data.encode("utf-8")
+            if isinstance(data, (bytes, bytearray)) and len(data) > 0:
+                yield ft, bytes(data), how
